@@ -37,7 +37,7 @@ FragBytes(f) ==
     [] f.k = "ifopen"  -> <<123,37>> \o Dash(f.l) \o <<32,105,102,32,49,32>> \o Dash(f.r) \o <<37,125>>     \* {% if 1 %}
     [] f.k = "ifclose" -> <<123,37>> \o Dash(f.l) \o <<32,101,110,100,105,102,32>> \o Dash(f.r) \o <<37,125>> \* {% endif %}
     [] f.k = "ttag"    -> <<123,37>> \o Dash(f.l) \o <<32,116,101,109,112,108,97,116,101,116,97,103,32,111,112,101,110,98,108,111,99,107,32>> \o Dash(f.r) \o <<37,125>>  \* {% templatetag openblock %}
-    [] f.k = "ctag"    -> <<123,37>> \o Dash(f.l) \o <<32,99,111,109,109,101,110,116,32,37,125,123,123,32,122,32,125,125,123,37,32,101,110,100,99,111,109,109,101,110,116,32>> \o Dash(f.r) \o <<37,125>>  \* {% comment %}{{ z }}{% endcomment %}
+    [] f.k = "ctag"    -> <<123,37>> \o Dash(f.l) \o <<32,99,111,109,109,101,110,116,32,37,125>> \o f.b \o <<123,37,32,101,110,100,99,111,109,109,101,110,116,32>> \o Dash(f.r) \o <<37,125>>  \* {% comment %}<body>{% endcomment %}
     [] f.k = "comment" -> <<123,35,32,123,123,32,99,32,35,125>>                                              \* {# {{ c #}
     [] f.k = "verb"    -> VerbatimOpen \o f.b \o VerbatimClose
 
